@@ -14,7 +14,7 @@ import numpy as np
 from . import exact
 
 REAL_NP = np
-VALS = [0, 1, -1, 2, -2, 0.5, -0.5, 1, -1, 0, 3, -1.5]
+VALS = [1, -1, 2, -2, 0.5, -0.5, 1, -1, 3, -1.5, 0, 1, 2, -1]
 S_MENUS = {
     1: [[2], [1], [0], [0.5], [3]],
     2: [[3, 4], [4, 3], [1, 0], [0, 0], [2, 2], [1, 1], [0.5, 0.5], [0, 2]],
@@ -115,8 +115,12 @@ class _Linalg:
             if rn * rn == num and rd * rd == den and not self._opts.get('fake_norm_always', False):
                 w = float(Fraction(rn, rd))
         if w is None:
-            rng = _rng_for('norm', x)
-            w = float(rng.choice([1.0, 2.0, 4.0, 0.5]))
+            # uninterpreted, but not larger than the true norm (so that the normalised total weight is >= 1
+            # and the truncation rule keeps at least one value, as it does with the true norm)
+            w = 2.0 ** math.floor(math.log2(math.sqrt(float(ss))))
+            if self._opts.get('fake_norm_random', False):
+                rng = _rng_for('norm', x)
+                w = float(rng.choice([1.0, 2.0, 4.0, 0.5]))
         try:
             self._rec.add('norm', exact.enc_reals(x), exact.enc_real(w))
         except exact.Inexact:
@@ -178,3 +182,39 @@ def patched(rec, modules=('bond_ops', 'mps'), opts=None):
     finally:
         for mod, old in saved:
             mod.np = old
+
+
+def make_fake_abs(rec):
+    """replacement for the builtin `abs` looked up in pytenet.mps (used by MPS.compress)"""
+    def fake_abs(z):
+        zc = complex(z)
+        if zc.imag == 0:
+            out = builtins_abs(zc.real)
+        else:
+            rng = _rng_for('cabs', REAL_NP.array([zc]))
+            out = float(rng.choice([1.0, 2.0, 0.5, 4.0]))
+        try:
+            rec.add('cabs', exact.enc_scalar(zc), exact.enc_real(out))
+        except exact.Inexact:
+            rec.inexact = True
+        return out
+    return fake_abs
+
+
+import builtins as _b
+builtins_abs = _b.abs
+
+
+@contextlib.contextmanager
+def patched_abs(rec):
+    import pytenet.mps as pm
+    had = 'abs' in pm.__dict__
+    old = pm.__dict__.get('abs')
+    pm.abs = make_fake_abs(rec)
+    try:
+        yield
+    finally:
+        if had:
+            pm.abs = old
+        else:
+            del pm.abs
